@@ -259,8 +259,14 @@ func (c *clusterClient) DownloadBlob(ctx context.Context, namespace string, d co
 
 	log.WithTraceContext(ctx).With("namespace", namespace, "digest", d.Hex()).Debug("Starting blob download from origin cluster")
 
+	// dst cannot be rewound: once an attempt has written part of the blob to it,
+	// another attempt would deliver those bytes a second time.
+	w := &countingWriter{w: dst}
 	err := Poll(c.resolver, c.defaultPollBackOff(), d, func(client Client) error {
-		return client.DownloadBlob(ctx, namespace, d, dst)
+		if w.n > 0 {
+			return errPartialDownload
+		}
+		return client.DownloadBlob(ctx, namespace, d, w)
 	})
 	if httputil.IsNotFound(err) {
 		span.SetStatus(codes.Error, "blob not found")
@@ -357,6 +363,22 @@ func shuffle(cs []Client) {
 		j := rand.Intn(i + 1)
 		cs[i], cs[j] = cs[j], cs[i]
 	}
+}
+
+// errPartialDownload is returned for every attempt which follows one that failed
+// after writing part of the blob to the destination.
+var errPartialDownload = errors.New("previous attempt failed after a partial download")
+
+// countingWriter counts the bytes written to w.
+type countingWriter struct {
+	w io.Writer
+	n int64
+}
+
+func (c *countingWriter) Write(p []byte) (int, error) {
+	n, err := c.w.Write(p)
+	c.n += int64(n)
+	return n, err
 }
 
 // Poll wraps requests for endpoints which require polling, due to a blob
